@@ -340,6 +340,17 @@ class Contract:
         self.known = d.get("known", {})  # obligation name -> known-finding id
         self.assumes = list(d.get("assumes", []))  # free-text assumption list reported in evidence
         self.max_paths = int(d.get("max_paths", 1500))
+        self.pure = bool(d.get("pure", False))
+        self.requires_more = [_fn(v) for k, v in d.items() if k.startswith("requires_")]
+        self.args_thorough = d.get("args_thorough")
+
+    def all_requires(self):
+        return ([self.requires] if self.requires is not None else []) + list(getattr(self, "requires_more", []))
+
+    def args_for(self, tier):
+        if tier == "thorough" and getattr(self, "args_thorough", None):
+            return dict(self.args, **self.args_thorough)
+        return self.args
 
     @property
     def func(self):
@@ -392,6 +403,11 @@ class Lemma:
         self.bounded_only = False
         self.native_call = None
         self.max_paths = int(d.get("max_paths", 1500))
+        self.requires_more = [_fn(v) for k, v in d.items() if k.startswith("requires_")]
+        self.args_thorough = d.get("args_thorough")
+
+    all_requires = Contract.all_requires
+    args_for = Contract.args_for
 
     @property
     def id(self):
@@ -410,6 +426,42 @@ def lemma(pid, args):
         return cls
 
     return deco
+
+
+class LoopUnit(Contract):
+    """The body of one loop of a real function, verified as a unit from an ARBITRARY pre-iteration state
+    (loop rule 3/4 of DESIGN 3.3): `args` types every variable the body reads (loop targets included);
+    requires = the loop invariant / state invariant; ensures_*(…pre-state names…, result) where
+    `result.<var>` is the variable after the body and `result.outcome` is 'normal' | 'continue' | 'break'
+    | 'return' (`result.returned` holds the value).  Natively the body is compiled from the real AST."""
+
+    kind = "loop"
+
+    def __init__(self, pid, target, spec_cls, args, anchor, **kw):
+        super().__init__(pid, target, spec_cls, args, **kw)
+        self.anchor = anchor
+
+
+def loop_unit(pid, target, anchor, args, **kw):
+    def deco(cls):
+        c = LoopUnit(pid, target, cls, args, anchor, **kw)
+        REGISTRY.append(c)
+        cls._contract = c
+        return cls
+
+    return deco
+
+
+class NS:
+    """Plain namespace (post-state of a loop unit); attribute reads work natively and in the engine."""
+
+    _pyvc_symbolic = True
+
+    def __init__(*a, **kw):
+        a[0].__dict__.update(kw)
+
+    def __repr__(self):
+        return "NS(%s)" % ", ".join(f"{k}={v!r}" for k, v in self.__dict__.items())
 
 
 BOUNDED = []  # bounded stand-ins: functions (rng, tier, report) -> None
